@@ -110,7 +110,7 @@ func snapshot(fdb *fakesql.DB) []map[string]string {
 
 // limitFilter draws a filter that complies with the limit or breaks it in one of the ways a caller can.
 func limitFilter(r *rand.Rand, limitOrg int64) (sqlgen.Filter, map[string]sqlzoo.FVal) {
-	f, a := sqlzoo.RandomFilter(r, []string{"id", "name", "age", "kind"})
+	f, a := sqlzoo.RandomFilter(r, []string{"id", "name", "age", "kind", "small"}) // columns sorting before and after the limit's
 	switch r.Intn(8) {
 	case 0: // no filter on the limit column
 	case 1: // the other shard
@@ -223,8 +223,20 @@ func Main(args []string) error {
 				ctx = batch.WithBatching(ctx)
 			}
 			filters := make([]sqlgen.Filter, ncalls)
+			sameCols := op.Batched && r.Intn(2) == 0
 			for c := 0; c < ncalls; c++ {
 				f, a := limitFilter(r, limitOrg)
+				if sameCols && c > 0 {
+					// the batch combines filters over the same set of columns into one statement: same columns, other values
+					f, a = sqlgen.Filter{}, map[string]sqlzoo.FVal{}
+					for col, fv := range op.Filters[0] {
+						if col != "org" && fv.Rep != "nil" {
+							fv.V = sqlzoo.Domains[col][r.Intn(len(sqlzoo.Domains[col]))]
+						}
+						a[col] = fv
+						f[col] = sqlzoo.Go(col, fv)
+					}
+				}
 				filters[c] = f
 				op.Filters = append(op.Filters, a)
 			}
